@@ -475,11 +475,22 @@ fn fam_raw_only(ctx: &CaseCtx, cov: &mut Cov) -> CaseOut {
                     }
                     cov.name("raw_only_mutants_still_well_formed", 1);
                 }
+                // same divergence the other way round: only the raw-chunk framing is this family's subject
+                (Err(_), Verdict::Ok) if obs.borrow().chunk_class[2..].iter().sum::<u64>() > 0 => {
+                    cov.name("raw_only_mutants_exposing_a_compressed_chunk.accepted_(documented leniency, judged by the other families)", 1);
+                }
                 (Err(e), other) => out.violate(
                     format!("C17/{}/{}", RULES[7], if other.is_ok() { "accepted".to_string() } else { verdict_sig(other) }),
                     format!("uncompressed chunk size {} -> {} (reference: {:?}): {}", info.unpacked, v, e, other.short()),
                     J::obj().set("input_hex", J::s(crate::util::hex_trunc(&b, 2048))),
                 ),
+                // The lenient reference skips a compressed chunk's unused packed bytes; lzma-rs resumes
+                // where the range coder stopped. When a size mutation makes data bytes parse as a
+                // compressed chunk (control >= 0x80) the two diverge on a stream that is malformed
+                // anyway (strict reading: no properties, packed bytes not drained): rejecting it is right.
+                (Ok(_), _) if obs.borrow().chunk_class[2..].iter().sum::<u64>() > 0 && lzma2::read(&b, true, true).is_err() => {
+                    cov.name("raw_only_mutants_exposing_a_compressed_chunk.rejected", 1);
+                }
                 (Ok(_), other) => out.violate(
                     format!("C17/raw-only/rejected-well-formed/{}", verdict_sig(other)),
                     format!("uncompressed chunk size {} -> {} still gives a well-formed stream, but: {}", info.unpacked, v, other.short()),
